@@ -33,7 +33,7 @@ type corpus struct {
 	sep      string
 }
 
-func (c *corpus) gen(src *sim.Src, ntok int) string {
+func (c *corpus) gen(src *sim.Src, ntok, brk int) (string, []itemSpan) {
 	var b strings.Builder
 	b.WriteString(c.prologue)
 	n := 0
@@ -45,7 +45,13 @@ func (c *corpus) gen(src *sim.Src, ntok int) string {
 			subset = append(subset, src.Draw(len(c.items)))
 		}
 	}
+	period := 0
+	if brk == 2 {
+		period = 4 + src.Draw(60)
+	}
 	f := src.Fork()
+	var spans []itemSpan
+	var damaged []int
 	for n < ntok {
 		var i int
 		if subset != nil {
@@ -53,12 +59,66 @@ func (c *corpus) gen(src *sim.Src, ntok int) string {
 		} else {
 			i = f.Draw(len(c.items))
 		}
-		b.WriteString(c.items[i])
+		text := c.items[i]
+		hit := period > 0 && (len(spans)+1)%period == 0
+		if hit {
+			text = breakInput(f, text)
+			damaged = append(damaged, len(spans))
+		}
+		off := b.Len()
+		b.WriteString(text)
+		spans = append(spans, itemSpan{off: off, end: b.Len(), toks: c.toks[i], intact: !hit})
 		b.WriteString(c.sep)
 		n += max(1, c.toks[i])
 	}
 	b.WriteString(c.epilogue)
-	return b.String()
+	out := b.String()
+	if brk == 1 && len(spans) > 0 {
+		// a few damaged items: rebuild the text around them
+		k := 1 + src.Draw(3)
+		pick := map[int]bool{}
+		for ; k > 0; k-- {
+			pick[src.Draw(len(spans))] = true
+		}
+		var nb strings.Builder
+		nb.WriteString(c.prologue)
+		pos := len(c.prologue)
+		for j := range spans {
+			text := out[spans[j].off:spans[j].end]
+			if pick[j] {
+				text = breakInput(src, text)
+				spans[j].intact = false
+				damaged = append(damaged, j)
+			}
+			_ = pos
+			spans[j].off = nb.Len()
+			nb.WriteString(text)
+			spans[j].end = nb.Len()
+			nb.WriteString(c.sep)
+		}
+		nb.WriteString(c.epilogue)
+		out = nb.String()
+	}
+	// neighbours of a damaged item may be swallowed by its recovery
+	for _, j := range damaged {
+		for _, d := range []int{-1, 1, 2} {
+			if j+d >= 0 && j+d < len(spans) {
+				spans[j+d].intact = false
+			}
+		}
+	}
+	return out, spans
+}
+
+// plain adapts a generator without item structure.
+func plain(g func(src *sim.Src, ntok int) string) func(src *sim.Src, ntok, brk int) (string, []itemSpan) {
+	return func(src *sim.Src, ntok, brk int) (string, []itemSpan) {
+		in := g(src, ntok)
+		if brk != 0 {
+			in = breakInput(src, in)
+		}
+		return in, nil
+	}
 }
 
 func (c *corpus) validate(ends func(string) []int, ok func(string) bool) (dropped []string) {
@@ -164,6 +224,25 @@ var tmCorpus = &corpus{
 		"inline n: id num ;",
 		"%assert empty set(first a & first b);",
 	},
+}
+
+// a single (very long) nonterminal definition for the secondary input ParseNonterm
+var tmAlts = []string{
+	"id '+' id", "num", "id? num*", "'(' a ')'", "(a separator '+')+", "[T] id", "(?= a) id num", "num { $$ = $num }",
+	"set(id | num)+ '+'", "lhs=id '+' rhs=id -> Plus", "id .greedy num", "d<+T> d<~T>", "id{a} num{b} { foo($a, $b); }", "(id | num '+')+?",
+	"%empty", "a b c -> ABC/Flag", "id %prec '+'", "'(' (b | c)* ')' -> Paren",
+}
+
+func genTmNonterm(src *sim.Src, ntok int) string {
+	var b strings.Builder
+	b.WriteString("x -> X:\n    id")
+	f := src.Fork()
+	for n := 0; n < ntok; n += 5 {
+		b.WriteString("\n  | ")
+		b.WriteString(tmAlts[f.Draw(len(tmAlts))])
+	}
+	b.WriteString("\n;\n")
+	return b.String()
 }
 
 // ---------------------------------------------------------------------------------
@@ -416,6 +495,9 @@ func initTargets() {
 
 	if len(tmCorpus.items) > 0 {
 		register(&Target{Name: "tm.Parser.ParseFile", Parse: tmParseWith(false), TokenEnds: tmTokenEnds, Gen: tmCorpus.gen, HasEH: true, Events: true, Weight: 10})
+		if okWith(tmParseWith(true))(genTmNonterm(sim.NewSearch(1, 1), 60)) {
+			register(&Target{Name: "tm.Parser.ParseNonterm", Parse: tmParseWith(true), TokenEnds: tmTokenEnds, Gen: plain(genTmNonterm), HasEH: true, Events: true, Weight: 4})
+		}
 		register(&Target{Name: "tm/ast.Parse", Parse: tmParseAST, TokenEnds: tmTokenEnds, Gen: tmCorpus.gen, HasEH: true, Weight: 5})
 	}
 	if len(jsCorpus.items) > 0 {
@@ -427,7 +509,7 @@ func initTargets() {
 	}
 	if len(testCorpus.items) > 0 {
 		register(&Target{Name: "test.Parser.ParseTest", Parse: testParse, TokenEnds: testTokenEnds, Gen: testCorpus.gen, Events: true, Lookaheads: true, Weight: 14})
-		register(&Target{Name: "test.Parser.ParseDecl1", Parse: testParseDecl1, TokenEnds: testTokenEnds, Gen: genDecl1, Events: true, Weight: 4})
+		register(&Target{Name: "test.Parser.ParseDecl1", Parse: testParseDecl1, TokenEnds: testTokenEnds, Gen: plain(genDecl1), Events: true, Weight: 4})
 	}
 	initGenerated()
 }
